@@ -1,7 +1,7 @@
 """Sidecar contracts for monkeytype/type_checking_imports_transformer.py (C16)."""
 from pyvc.registry import contract
 
-TH = ["cst", "types"]
+TH = ["cst"]
 P = "monkeytype.type_checking_imports_transformer:"
 _ITEMS = "items_of(self)"
 _M_IMP = "exists(%s, lambda it: item_module(it) is alias_name({a}) and item_obj(it) is None and item_alias(it) is alias_asname({a}))" % _ITEMS
@@ -20,6 +20,9 @@ def _contract(name, matched, cond_inner, requires=None):
                  "post:removed-iff-all-moved": "implies(not is_star(updated_node), (result is REMOVE) == forall(cst_names(updated_node), lambda a: " + matched.format(a="a") + "))",
                  "post:star-untouched": "implies(is_star(updated_node), result is updated_node)",
              },
+             hints={"nothing-kept": "implies(len(L_names_to_keep) == 0, forall_v(lambda x: not has(L_names_to_keep, x)))",
+                    "empty-means-all-moved": "implies(len(L_names_to_keep) == 0, forall(range_(0, len(cst_names(updated_node))), lambda j: " + matched.format(a="nth(cst_names(updated_node), j)") + "))",
+                    "nonempty-means-one-kept": "implies(len(L_names_to_keep) > 0, exists(range_(0, len(cst_names(updated_node))), lambda j: not " + matched.format(a="nth(cst_names(updated_node), j)") + "))"},
              loops={0: {"iter": "updated_node.names",
                         "inv": {"kept": "forall(range_(0, _i), lambda j: implies(not " + matched.format(a="nth(cst_names(updated_node), j)") + ", has(names_to_keep, alias_nocomma(nth(cst_names(updated_node), j)))))",
                                 "only": "forall(names_to_keep, lambda x: exists(range_(0, _i), lambda j: x is alias_nocomma(nth(cst_names(updated_node), j)) and not "
